@@ -138,6 +138,9 @@ def abandoned_setters(rng, n):
 def run(ctx):
     machine_prop.run(ctx, FAMILIES, MONITORS, extra_scenarios=revert_family(ctx.rng, ctx.n(80, 1500)) +
                      abandoned_setters(ctx.rng, ctx.n(40, 800)))
+    # condition objects used by several simulations in a row / by a nested one (the family lives in C01)
+    from harness.props import C01
+    C01.reused_conditions(ctx, ctx.n(20, 300))
     resource_comparisons(ctx)
 
 
